@@ -39,3 +39,44 @@ def gc_of(v):
 def cursor(v):
     "the translator's insertion cursor: the stack of open blocks"
     return field(gc_of(v), "_scope_stack")
+
+# ---------------------------------------------------------------------------------------------------------------
+# The common visitor contract (CVC, DESIGN 1.5).  Every call that re-enters the translator (get_rep / visit /
+# as_sequence / generic dispatch) is seen by its callers only through these clauses.
+UVI = "global:func_adl_xAOD.common.cpp_vars.unique_var_index"
+CVC_MODIFIES = ["_statements", "_variables", "_rep_dict", "_scope_stack", "_class_vars", "_include_files", "_link_libraries",
+                "rep", "scope", UVI, "alloc"]
+CVC_REQUIRES = [("gc", "gc_of(self) != None and live(gc_of(self))")]
+CVC_ENSURES = [
+    ("cvc.monotone", "monotone('_statements') and monotone('_variables')"),
+    ("cvc.scope_tokens_immutable", "stable_except('_scope_stack', gc_of(self))"),
+    ("cvc.members_grow", "prefix_of(old(field(gc_of(self), '_class_vars')), field(gc_of(self), '_class_vars')) and "
+                         "prefix_of(old(field(gc_of(self), '_include_files')), field(gc_of(self), '_include_files')) and "
+                         "prefix_of(old(field(gc_of(self), '_link_libraries')), field(gc_of(self), '_link_libraries'))"),
+    ("cvc.counter", "unique_var_index >= old(unique_var_index)"),
+]
+
+contract("func_adl.ast.func_adl_ast_utils.FuncADLNodeVisitor.visit", assumed=True,
+         params=dict(self=QV, node=Ref), requires=CVC_REQUIRES, modifies=CVC_MODIFIES, may_raise=["Exception"], strict=False,
+         ensures=CVC_ENSURES,
+         note="external dispatch to visit_X / call_X by node class; every method under contract is verified against the CVC, "
+              "the remaining ones are assumed to satisfy it")
+
+contract("func_adl.ast.func_adl_ast_utils.FuncADLNodeVisitor.visit_Call", assumed=True,
+         params=dict(self=QV, node=Ref), result=TOpt(Ref), requires=CVC_REQUIRES, modifies=CVC_MODIFIES, may_raise=["Exception"],
+         strict=False, ensures=CVC_ENSURES)
+
+contract("func_adl.ast.func_adl_ast_utils.FuncADLNodeVisitor.generic_visit", assumed=True,
+         params=dict(self=QV, node=Ref), requires=CVC_REQUIRES, modifies=CVC_MODIFIES, may_raise=["Exception"], strict=False,
+         ensures=CVC_ENSURES)
+
+contract(TR + "query_ast_visitor.visit", props=["C01", "C09"],
+         params=dict(self=QV, node=Ref), requires=CVC_REQUIRES + [("node", "node != None")], modifies=CVC_MODIFIES,
+         may_raise=["Exception"], strict=False, ensures=CVC_ENSURES)
+
+contract(TR + "query_ast_visitor.get_rep", props=["C01", "C09"],
+         params=dict(self=QV, node=Ref, retain_scope=Bool), result=REP,
+         requires=CVC_REQUIRES + [("node", "node != None")], modifies=CVC_MODIFIES, may_raise=["Exception"], strict=False,
+         defaults=dict(retain_scope="False"),
+         ensures=[("has_rep", "result != None and live(result) and field(node, 'rep') == result"),
+                  ("retain_scope", "implies(retain_scope, seq_eq(cursor(self), old(cursor(self))))")] + CVC_ENSURES)
